@@ -186,10 +186,14 @@ def call_kwargs(kind, call):
     form = call["form"]
     if form in ("none", "elems"):
         return {}
+    # the scale is documented as "expected to be nonnegative, and its absolute value will be used": a third of the
+    # calls pass it negated; the specified parts and their routing are the same (seeded C09-m5)
+    import json as _json, zlib as _zlib
+    sgn = -1.0 if _zlib.crc32(_json.dumps([kind, call], sort_keys=True, default=str).encode()) % 3 == 0 else 1.0
     if form == "scalar":
-        return {"signal": float(call["s"]) * SIG_SCALAR, "scale": SCALE}
+        return {"signal": float(call["s"]) * SIG_SCALAR, "scale": sgn * SCALE}
     if form == "tensor":
-        return {"signal": torch.tensor([float(c) * m for c, m in zip(call["sv"], SIG_TENSOR)]), "scale": SCALE}
+        return {"signal": torch.tensor([float(c) * m for c, m in zip(call["sv"], SIG_TENSOR)]), "scale": sgn * SCALE}
     if form == "onehot":       # reference: unit reward for one sample, zero for the others
         v = [0.0] * B
         v[call["b"]] = 1.0
